@@ -42,6 +42,16 @@ static void run(const std::vector<std::string> & t)
       rdp(b); emit(rc.cast(b));
     } else if (op == "OE") {
       rdp(a); rdp(b); emit(rc.cast(a, b));
+    } else if (op == "SE") {          // setEndPoint(e); cast()  — the form used by the unit tests
+      rdp(b); rc.setEndPoint(b); emit(rc.cast());
+    } else if (op == "IT") {          // setEndPoint(e); then the iterative API: computeRayNumberOfCells() + next()
+      rdp(b); rc.setEndPoint(b);
+      size_t nc = rc.computeRayNumberOfCells();
+      VectorOfEigenVector<typename RayCasting<S, DIM>::CellIndexes> ray(nc);
+      typename RayCasting<S, DIM>::CellIndexes cur = rc.getOriginPointIndexes();
+      ray[0] = cur;
+      for (size_t k = 1; k < nc; ++k) {rc.next(cur); ray[k] = cur;}
+      emit(ray);
     } else if (op == "K") {
       emit(rc.cast());
     } else {
